@@ -34,7 +34,7 @@ StepsSet == { Nm(ka), Nm(<<97, 98, 48>>), Wild, Multi(<<Nm(ka), Nm(kb)>>), Multi
               Flt(A1), Flt(A2), Flt(Or(A1, A3)) }
 FuncSeqs == { <<>>, <<FF(Fn_f1)>>, <<AF(Fn_g1)>>, <<FF(Fn_f1), AF(Fn_g1), FF(Fn_f2)>> }
 
-Spells == [q : {39, 34}, brk : BOOLEAN, spc : BOOLEAN, omit : BOOLEAN, plus : BOOLEAN, up : BOOLEAN]
+Spells == [q : {39, 34}, brk : BOOLEAN, spc : {0, 1}, omit : BOOLEAN, plus : BOOLEAN, up : BOOLEAN]
 Cfg == [ff |-> <<Fn_f1, Fn_f2>>, af |-> <<Fn_g1>>]
 
 VARIABLES ast, sp, ph     \* ph: 0 nothing chosen, 1 AST chosen, 2 spelling chosen (two levels: TLC expands in parallel)
